@@ -12,6 +12,7 @@ import (
 	"os"
 	"sort"
 	"strconv"
+	"strings"
 	"unicode"
 	"unicode/utf8"
 
@@ -374,7 +375,7 @@ func main() {
 	a := wire.ParseArgs()
 	rng := wire.Rng(a.Seed)
 	w := wire.NewWriter("C18", a.Seed, a.Tier)
-	w.Rule = "single-key sweep (exhaustive): every rule key (run-time table + published table) x (every value listed for any key + specials \"\", no, yes, unlisted, No, ... + byte-order neighbours of the key's own listed values [thorough: of all listed values]) x area in {absent, \"\", no, yes, x}, both tag orders alternating, on a closed 4-ring; length sweep 0..7 x closed/open/all-equal x tag sets; every id sequence over {1,2,3} of length 0..5; pairs (list key x any key) x pass/fail/no values x both orders; random tag sets in 3-6 (or all) orders; irrelevant and near-miss keys inserted; duplicate keys (model only); relations: type values x other tags x positions; Tags.Find on present/absent/near-miss keys; the run-time table. distinct = distinct token streams; trivial = none."
+	w.Rule = "single-key sweep (exhaustive): every rule key (run-time table + published table) x (every value listed for any key + specials \"\", no, yes, unlisted, No, ... + byte-order neighbours of the key's own listed values [thorough: of all listed values]) x area in {absent, \"\", no, yes, x}, both tag orders alternating, on a closed 4-ring; length sweep 0..7 x closed/open/all-equal x tag sets; every id sequence over {1,2,3} of length 0..5; near-miss keys (rule key, area, type with a space/colon/s/NUL added, a byte dropped, upper case) with firing values; pairs (list key x any key) x pass/fail/no values x both orders; random tag sets in 3-6 (or all) orders; irrelevant and near-miss keys inserted; duplicate keys (model only); relations: type values x other tags x positions; Tags.Find on present/absent/near-miss keys; the run-time table. distinct = distinct token streams; trivial = none."
 	thorough := a.Tier == "thorough"
 
 	rt := osm.VerifPolyConditions()
@@ -413,9 +414,13 @@ func main() {
 		{ring4, osm.Tags{{Key: "aeroway", Value: "taxiwaz"}}},                          // just above it
 		{ring4, osm.Tags{{Key: "area", Value: "no"}, {Key: "building", Value: "yes"}}}, // area=no wins
 		{ring4, osm.Tags{{Key: "building", Value: "yes"}, {Key: "area", Value: "no"}}},
-		{[]int64{1, 2, 1}, osm.Tags{{Key: "building", Value: "yes"}}},    // 3 refs: not an area
-		{[]int64{1, 2, 3, 1}, osm.Tags{{Key: "building", Value: "yes"}}}, // 4 refs: the smallest area
-		{[]int64{1, 2, 3, 4}, osm.Tags{{Key: "building", Value: "yes"}}}, // open
+		{ring4, osm.Tags{{Key: "building ", Value: "yes"}}},                 // near-miss key (found the Find mutation m11)
+		{ring4, osm.Tags{{Key: "area", Value: "No"}}},                       // only the exact value "no" denies
+		{ring4, osm.Tags{{Key: "building", Value: "no"}}},                   // value "no" is skipped
+		{[]int64{1, 2, 3, 1, 4}, osm.Tags{{Key: "building", Value: "yes"}}}, // closedness is first = LAST
+		{[]int64{1, 2, 1}, osm.Tags{{Key: "building", Value: "yes"}}},       // 3 refs: not an area
+		{[]int64{1, 2, 3, 1}, osm.Tags{{Key: "building", Value: "yes"}}},    // 4 refs: the smallest area
+		{[]int64{1, 2, 3, 4}, osm.Tags{{Key: "building", Value: "yes"}}},    // open
 	}
 	for _, k := range corpus {
 		w.Add(wayCase("corpus", k.ids, k.tags))
@@ -469,6 +474,51 @@ func main() {
 		}
 	}
 
+	pass := func(r rule) string {
+		switch r.cond {
+		case 1:
+			return r.values[len(r.values)/2]
+		case 2:
+			return "unlisted_value"
+		}
+		return "yes"
+	}
+	failv := func(r rule) string {
+		switch r.cond {
+		case 1:
+			return "unlisted_value"
+		case 2:
+			return r.values[len(r.values)/2]
+		}
+		return "no"
+	}
+	// near-miss keys: a key that merely resembles a rule key (or "area") must not count
+	nearKeys := func(k string) []string {
+		out := []string{k + " ", " " + k, k + ":", k + "s", k + "\x00", k[:len(k)-1], strings.ToUpper(k[:1]) + k[1:], strings.ToUpper(k), k + ":" + k, "_" + k}
+		return out
+	}
+	for _, r := range published {
+		for _, nk := range nearKeys(r.key) {
+			if keys.m[nk] || nk == "area" {
+				continue
+			}
+			w.Add(wayCase("near-miss-key", ring4, osm.Tags{{Key: nk, Value: pass(r)}}))
+			w.Add(wayCase("near-miss-key", ring4, osm.Tags{{Key: nk, Value: "yes"}, {Key: "name", Value: "x"}}))
+		}
+	}
+	for _, nk := range nearKeys("area") {
+		if keys.m[nk] {
+			continue
+		}
+		w.Add(wayCase("near-miss-key", ring4, osm.Tags{{Key: nk, Value: "yes"}}))
+		w.Add(wayCase("near-miss-key", ring4, osm.Tags{{Key: nk, Value: "no"}, {Key: "building", Value: "yes"}}))
+		w.Add(wayCase("near-miss-key", ring4, osm.Tags{{Key: "building", Value: "yes"}, {Key: nk, Value: "no"}}))
+	}
+	for _, nk := range nearKeys("type") {
+		w.Add(relCase("near-miss-key", osm.Tags{{Key: nk, Value: "multipolygon"}}))
+		w.Add(relCase("near-miss-key", osm.Tags{{Key: nk, Value: "boundary"}, {Key: "type", Value: "route"}}))
+	}
+
 	// 2. closed / length sweep
 	tagsets := []osm.Tags{
 		nil,
@@ -516,24 +566,6 @@ func main() {
 	}
 
 	// 3. pairs of rule keys
-	pass := func(r rule) string {
-		switch r.cond {
-		case 1:
-			return r.values[len(r.values)/2]
-		case 2:
-			return "unlisted_value"
-		}
-		return "yes"
-	}
-	failv := func(r rule) string {
-		switch r.cond {
-		case 1:
-			return "unlisted_value"
-		case 2:
-			return r.values[len(r.values)/2]
-		}
-		return "no"
-	}
 	for _, r1 := range published {
 		if r1.cond == 0 && !thorough {
 			continue
@@ -689,16 +721,17 @@ func main() {
 
 	// 7. canaries: one corrupted observation per observable class
 	{
+		// observed := the opposite of what the published rules say (zigzag: true is 2, false is 0)
 		c := wayCase("", ring4, osm.Tags{{Key: "highway", Value: "services"}})
-		c.Toks[len(c.Toks)-1] ^= 2 // observed true -> false (zigzag: 1 is 2, 0 is 0)
+		c.Toks[len(c.Toks)-1] = 0 // "false" for a way that is an area
 		c.Canary, c.OracleFail = 1, ""
 		w.Add(c)
 		c2 := wayCase("", ring4, osm.Tags{{Key: "natural", Value: "cliff"}})
-		c2.Toks[len(c2.Toks)-1] ^= 2 // observed false -> true
+		c2.Toks[len(c2.Toks)-1] = 2 // "true" for a way that is not an area
 		c2.Canary, c2.OracleFail = 1, ""
 		w.Add(c2)
 		c3 := relCase("", osm.Tags{{Key: "type", Value: "boundary"}})
-		c3.Toks[len(c3.Toks)-1] ^= 2
+		c3.Toks[len(c3.Toks)-1] = 0
 		c3.Canary, c3.OracleFail = 1, ""
 		w.Add(c3)
 		c5 := findCase("", osm.Tags{{Key: "name", Value: "x"}, {Key: "area", Value: "yes"}}, "area")
